@@ -599,6 +599,22 @@ def decision_blocks(b, effects):
             # an assertion (debug_assert!, bounds check, unwrap) has one continuing successor; it decides nothing about the effect
             ys = [y for y in b.succ[d] if y in can_ret]
             if len(set(ys)) >= 2 and any(y in can_eff or y in eff_blocks for y in ys) and any(y in can_skip for y in ys):
+                # a diamond whose arms rejoin before any effect or return (`if log_enabled { log(..) }`) decides nothing either:
+                # take the immediate post-dominator m of d; if no effect block and no return lies between d and m, skip d
+                if b._pdom is None:
+                    b._compute_pdom()
+                m = b._pdom.get(d, -1)
+                if m != -1:
+                    region = set()
+                    stack = [y for y in b.succ[d] if y != m]
+                    while stack:
+                        x = stack.pop()
+                        if x in region or x == m:
+                            continue
+                        region.add(x)
+                        stack.extend(z for z in b.succ[x] if z != m)
+                    if not (region & eff_blocks) and not any(b.blocks[x]["term"]["t"] == "return" for x in region) and d not in region:
+                        continue
                 out.append(d)
     return out
 
